@@ -16,8 +16,10 @@ var errNotProto = errors.New("object does not implement the gogo proto interface
 var errInjected = errors.New("injected dependency failure")
 
 // ProtoMarshalizer re-implements elrond-go's production marshalizer:
-//   Marshal(obj)        = obj.Marshal()
-//   Unmarshal(obj, buf) = obj.Reset(); obj.Unmarshal(buf)
+//
+//	Marshal(obj)        = obj.Marshal()
+//	Unmarshal(obj, buf) = obj.Reset(); obj.Unmarshal(buf)
+//
 // with optional fault injection (fail the k-th Marshal / Unmarshal call) and call counting for C17.
 type ProtoMarshalizer struct {
 	nMarshal, nUnmarshal       int64
